@@ -26,6 +26,10 @@ ASSUMPTIONS = ["Jitter/Delay/After and TTL with a finite positive duration are n
                "a Launch-ed Worker's waiter is called by one goroutine at a time (WorkerFuture is not concurrency-safe)",
                "background starters are run with scripts that do not panic (a panic in a bare goroutine ends the process)"]
 
+# a concurrent case with 64 callers takes tens of quiescence scans; on a heavily loaded box the default
+# 4 s per-case watchdog of the quick tier could fire on a healthy case (it only exists to detect hangs)
+HARNESS_ENV = {"VERIF_CASE_TIMEOUT_MS": "60000"}
+
 KINDS = ["W", "O", "P", "X", "H", "F"]
 WRAPPERS = {
     "W": ["once", "limit", "ttl0", "ttlinf", "lock", "retry", "join", "prehook", "posthook", "withcancel", "if", "when", "recover"],
